@@ -16,7 +16,7 @@ P = Property('C18', 'other',
              'renaming; economies with different currencies do not interact) are bounded: generated economies solved and compared.',
              'contract-based deductive verification: VCs generated from the real AST (pyvc), z3/cvc5; bounded model comparison',
              design_ref='DESIGN.md section 6, C18')
-P.trust('contract of Sector.__init__ (assumed: arbitrary effect on the model, creates self.EquationBlock); assumed contract of AddVariable (only its rejection clause is verified, C11), '
+P.trust('contract of Sector.__init__ (assumed: arbitrary effect on the model, creates self.EquationBlock); contract of AddVariable (verified in C11 for identifier-shaped names), '
         'SetEquationRightHandSide (below, verified)', 'T-FMT: "%0.4f" % x is a function of x')
 P.not_decided.append('series-level invariance under renaming and embedding: bounded (dyn/C18.py); government classes take no good-name parameter '
                      '(their built-in DEM_GOOD / PRIM_BAL are outside "the names the constructors accept")')
@@ -53,7 +53,7 @@ def defined_as(var, text):
 P.verify(fn(
     'sfc_models.sector_definitions.FixedMarginBusiness.__init__',
     args=dict(self=Ref('FixedMarginBusiness'), country=Ref('Country'), code=STR, long_name=STR, profit_margin=FLOAT, labour_input_name=STR, output_name=STR),
-    requires=[('names_are_local', "not ('__' in output_name) and not ('__' in labour_input_name)")],
+    requires=[('names_are_local', "not ('__' in output_name) and not ('__' in labour_input_name) and plain_name(output_name) and plain_name(labour_input_name)")],
     ensures=[('supply_variable_named_after_the_output', "has(%s, 'SUP_' + output_name)" % BLK),
              ('profit_uses_the_given_names', defined_as("'PROF'", "'SUP_' + output_name + ' - DEM_' + labour_input_name")),
              ('labour_demand_declared', "has(%s, 'DEM_' + labour_input_name)" % BLK),
@@ -72,7 +72,7 @@ BASEHH = P.verify(fn(
     'sfc_models.sector_definitions.BaseHousehold.__init__',
     args=dict(self=Ref('BaseHousehold'), **HH_ARGS),
     modifies=['*'],
-    requires=[('good_name_is_local', "not ('__' in 'DEM_' + consumption_good_name) and consumption_good_name != ''")],
+    requires=[('good_name_is_local', "not ('__' in 'DEM_' + consumption_good_name) and consumption_good_name != '' and plain_name(consumption_good_name)")],
     ensures=HH_ENS + [('consumption_function', defined_as("'DEM_' + consumption_good_name", CONS)),
                       ('block_created', 'allocated(self.EquationBlock) and allocated(self.EquationBlock.Equations)')],
     raises=HH_RAISES,
@@ -81,7 +81,7 @@ HH = P.verify(fn(
     'sfc_models.sector_definitions.Household.__init__',
     args=dict(self=Ref('Household'), labour_name=STR, **HH_ARGS),
     modifies=['*'],
-    requires=[('names_are_local', "not ('__' in 'DEM_' + consumption_good_name) and not ('__' in 'SUP_' + labour_name) and consumption_good_name != ''")],
+    requires=[('names_are_local', "not ('__' in 'DEM_' + consumption_good_name) and not ('__' in 'SUP_' + labour_name) and consumption_good_name != '' and plain_name(consumption_good_name) and plain_name(labour_name)")],
     ensures=HH_ENS + [('consumption_function', defined_as("'DEM_' + consumption_good_name", CONS)),
                       ('labour_supply_named_after_the_labour_market', "has(%s, 'SUP_' + labour_name)" % BLK),
                       ('block_created', 'allocated(self.EquationBlock) and allocated(self.EquationBlock.Equations)')],
@@ -91,7 +91,7 @@ P.verify(fn(
     'sfc_models.sector_definitions.HouseholdWithExpectations.__init__',
     args=dict(self=Ref('HouseholdWithExpectations'), labour_name=STR, **HH_ARGS),
     modifies=['*'],
-    requires=[('names_are_local', "not ('__' in 'DEM_' + consumption_good_name) and not ('__' in 'SUP_' + labour_name) and consumption_good_name != ''")],
+    requires=[('names_are_local', "not ('__' in 'DEM_' + consumption_good_name) and not ('__' in 'SUP_' + labour_name) and consumption_good_name != '' and plain_name(consumption_good_name) and plain_name(labour_name)")],
     ensures=HH_ENS + [('consumption_out_of_expected_income', defined_as("'DEM_' + consumption_good_name", CONSX)),
                       ('labour_supply_named_after_the_labour_market', "has(%s, 'SUP_' + labour_name)" % BLK),
                       ('expectation_variables', "has(%s, 'LAG_AfterTax') and has(%s, 'EXP_AfterTax')" % (BLK, BLK))],
@@ -101,7 +101,7 @@ P.verify(fn(
     'sfc_models.sector_definitions.Capitalists.__init__',
     args=dict(self=Ref('Capitalists'), **HH_ARGS),
     modifies=['*'],
-    requires=[('good_name_is_local', "not ('__' in 'DEM_' + consumption_good_name) and consumption_good_name != ''")],
+    requires=[('good_name_is_local', "not ('__' in 'DEM_' + consumption_good_name) and consumption_good_name != '' and plain_name(consumption_good_name)")],
     ensures=HH_ENS + [('consumption_function', defined_as("'DEM_' + consumption_good_name", CONS)),
                       ('dividend_income_variable', "has(%s, 'DIV')" % BLK)],
     raises=HH_RAISES,
